@@ -412,3 +412,50 @@ Proof.
   cbv zeta. eexists. eexists. split; [vm_compute; reflexivity|]. split; [vm_compute; reflexivity|].
   split; [vm_compute; reflexivity|]. split; [vm_compute; reflexivity|]. split; vm_compute; reflexivity.
 Qed.
+
+(* ================================================================ numbering inside the text of an element, at any depth
+   of inner braces (proofs/TextNested.v; repair 86fc68a made `p{{$}}*2` parse at all).
+   [payload] / [payload_text] / [payload_ok]: see props/C04.v (C04_text_nested): literal runs alternating with
+   counters, `$#`, fields, the written text balanced modulo escapes, items at ANY brace depth.
+   [payload_out reps P]: the literal runs with escapes resolved and every counter replaced by what it prints under
+   the repeater stack [reps]. *)
+From Emmet Require Import proofs.TextSpec proofs.TextProofs proofs.TextNested.
+
+(* numbering_nested_text.  `name{P}*N` for every payload without `${n}` fields (those stay tokens: C04_nested_repeated),
+   N written as the digit string [ds], limit not reached: exactly N nodes; the text of copy i (0-based) is the
+   literal runs, inner braces kept, with every counter -- whatever its brace depth -- replaced by ... *)
+Theorem C02_numbering_nested_text :
+  forall (jsx : bool) (env : cenv) (max_repeat : option N) (name : str) (P : payload) (ds : str),
+    name_ok name -> payload_ok P = true ->
+    forallb (fun kt => negb (is_field (fst kt))) (snd P) = true -> payload_text P <> [] ->
+    all_digits ds -> ds <> [] -> ce_text env = WNone ->
+    let n := count_of ds in
+    (Z.of_N n <= budget_of max_repeat)%Z ->
+    MarkupResolve.parse_abbr jsx env max_repeat (name ++ c_lbrace :: payload_text P ++ c_rbrace :: c_star :: ds) =
+      Ok (map (fun i => ANode (Some name) (Some [VStr (payload_out [mkRep n i false] P)])
+                              (Some (mkRep n i false)) None [] false)
+              (nseq (N.to_nat n) 0%N)).
+Proof. exact numbering_nested_text_full. Qed.
+Print Assumptions C02_numbering_nested_text.
+
+(* ... its value in copy i+1 of N: start + i counting up, start + N - (i+1) counting down, zero-padded to the
+   width of the `$` run (C02_numbering_in_copy for the token; here for the written item) *)
+Theorem C02_counter_in_nested_text :
+  forall (w : nat) (at_sign reverse : bool) (digits : str) (n i : N) (reps : list rep),
+    item_out (mkRep n i false :: reps) (INum w at_sign reverse digits) =
+      pad w (str_of_Z (counter_value reverse (form_base digits) (i + 1) n)).
+Proof. exact item_out_in_copy. Qed.
+Print Assumptions C02_counter_in_nested_text.
+
+(* non-vacuity: `p{a{$}b{{$$@-3}c}}*3` -- counters one and two braces deep *)
+Example C02_nested_text_nonvacuous :
+  let P : payload := (S "a{", [(INum 1 false false [], S "}b{{"); (INum 2 true true (S "3"), S "}c}")]) in
+  name_ok (S "p") /\ payload_ok P = true /\ payload_text P = S "a{$}b{{$$@-3}c}" /\
+  map (fun reps => payload_out reps P) [[mkRep 3 0 false]; [mkRep 3 1 false]; [mkRep 3 2 false]] =
+    [S "a{1}b{{05}c}"; S "a{2}b{{04}c}"; S "a{3}b{{03}c}"] /\
+  option_map (map an_value) (match MarkupResolve.parse_abbr false env0 None (S "p{a{$}b{{$$@-3}c}}*3") with Ok l => Some l | _ => None end) =
+    Some [Some [VStr (S "a{1}b{{05}c}")]; Some [VStr (S "a{2}b{{04}c}")]; Some [VStr (S "a{3}b{{03}c}")]].
+Proof.
+  cbv zeta. split; [split; [discriminate|repeat constructor]|].
+  repeat split; vm_compute; reflexivity.
+Qed.
